@@ -37,6 +37,9 @@ func c02Faults() []c02Fault {
 	for _, pos := range []string{"before-headers", "after-headers", "body"} {
 		fs = append(fs, c02Fault{name: "stall-short@" + pos, f: &Fault{At: pos, K: 1, Kind: "stall", For: 300 * time.Millisecond}})
 		fs = append(fs, c02Fault{name: "stall-long@" + pos, f: &Fault{At: pos, K: 1, Kind: "stall", For: 0}})
+		// a pause that ends right around the read timeout (For < 0: resolved per plan): the backend resumes
+		// while Olla is in the middle of giving up on it
+		fs = append(fs, c02Fault{name: "stall-to-the-timeout@" + pos, f: &Fault{At: pos, K: 1, Kind: "stall", For: -1}})
 	}
 	return fs
 }
@@ -116,6 +119,9 @@ func (propC02) Gen(seed uint64, tier string, idx int) *Plan {
 			if f.At == "body" && f.K >= len(first.Chunks) {
 				f.K = len(first.Chunks) // after last chunk, before terminator
 			}
+			if f.For < 0 {
+				f.For = p.Stack.ReadTimeout + r.Dur(-time.Millisecond, 3*time.Millisecond)
+			}
 			first.Fault = &f
 		}
 		ep.ByNonce["n1"] = []Resp{first}
@@ -133,6 +139,9 @@ func (propC02) Gen(seed uint64, tier string, idx int) *Plan {
 		rs := p.Endpoints[1].ByNonce["n1"]
 		if f.At == "body" && f.K >= len(rs[0].Chunks) {
 			f.K = len(rs[0].Chunks)
+		}
+		if f.For < 0 {
+			f.For = p.Stack.ReadTimeout + r.Dur(-time.Millisecond, 3*time.Millisecond)
 		}
 		if ff.f != nil || ff.host != "" {
 			rs[0].Fault = &f
@@ -285,7 +294,9 @@ func checkOneAttempt(r *Run, c *ClientResult, prop string) []Violation {
 			}
 		}
 		add("C02/body-mixes-attempts/"+disc, "client body (%d B) diverges from attempt %s at offset %d (attempt wrote %d B): %s; earlier attempt fault=%q", len(c.Body), want, n, len(A.BodyWrote), whose, A.FaultFired)
-	} else if A.Completed && c.Aborted == "" && c.BodyErr == "" && !c.TimedOut && len(c.Body) != len(A.BodyWrote) {
+	} else if A.Completed && c.Aborted == "" && c.BodyErr == "" && !c.TimedOut && len(c.Body) != len(A.BodyWrote) && !c02PausedToTheTimeout(r, A) {
+		// (an attempt that paused for the read timeout, give or take, and then wrote the rest into a connection
+		// Olla was in the middle of closing "completed" only from the backend's side: Olla may cut it)
 		add("C02/body-truncated-silently/"+disc, "attempt %s completed with %d B, client got %d B and a clean end of body", want, len(A.BodyWrote), len(c.Body))
 	}
 	// consequence: no re-dispatch after delivery
@@ -303,4 +314,17 @@ func (propC02) Check(r *Run) []Violation {
 		out = append(out, checkOneAttempt(r, c, "C02")...)
 	}
 	return out
+}
+
+func c02PausedToTheTimeout(r *Run, e *Exchange) bool {
+	for _, ep := range r.Plan.Endpoints {
+		for _, rs := range ep.ByNonce {
+			for _, x := range rs {
+				if x.Fault != nil && x.Fault.Kind == "stall" && x.Fault.For >= r.Plan.Stack.ReadTimeout-2*time.Millisecond && strings.HasPrefix(e.FaultFired, "stall") && ep.Name == e.Backend {
+					return true
+				}
+			}
+		}
+	}
+	return false
 }
